@@ -18,7 +18,8 @@ import math
 
 from simprocesd.model.simulation import EventType
 from simprocesd.model.factory_floor import (Batch, Source, Sink, PartHandler, PartProcessor, Buffer, PartBatcher,
-                                             DecisionGate, PartFlowController)
+                                             DecisionGate, PartFlowController, Maintainer)
+from simprocesd.model.sensors import PeriodicSensor
 from simprocesd.model.factory_floor.group import GroupPath
 import simprocesd.model.simulation as simmod
 
@@ -510,7 +511,7 @@ class Monitor:
         self._orig_sched(time, asset_id, action, event_type, message)
         for e in env._events:
             if id(e) not in before:
-                self.req[id(e)] = (e, event_type)
+                self.req[id(e)] = (e, event_type, time)
 
     def prio_of(self, ev):
         r = self.req.get(id(ev))
@@ -531,6 +532,10 @@ class Monitor:
             return
         if x.time != env.now:
             self.bad('C01.clock', f'clock {env.now} differs from the time {x.time} of the executed event')
+        rq = self.req.get(id(x))
+        if rq is not None and rq[0] is x and x.paused_at is None and rq[2] != env.now:
+            # never paused: it runs at the time it was scheduled for
+            self.bad('C01.clock', f'an event scheduled for {rq[2]} and never paused ran at {env.now}')
         tie = False
         for e in snap:
             if e is x or e.cancelled:
@@ -707,7 +712,9 @@ class Monitor:
         for d in self.devs:
             if not isinstance(d, PartProcessor):
                 continue
-            need = d._resources_for_processing
+            # what the model asked for when it built the machine (machines created later: as constructed)
+            sp = self.m.specs.get(d.name)
+            need = sp.get('res') if sp is not None and sp.get('k') == 'P' else d._resources_for_processing
             rr = d._reserved_resources
             if rr is not None:
                 held = rr.reserved_resources
@@ -856,8 +863,13 @@ class Monitor:
     def value_check(self):
         now = self.env.now
         assets = list(self.sys._assets)
-        for a in list(self.m.D.values()) + [self.m.maint]:
-            if isinstance(a, (PartFlowController, type(self.m.maint))) and not any(a is b for b in assets):
+
+        def veq(a, b):
+            # exact on the dyadic grid; for other amounts any rounding of a differently ordered sum is allowed, a lost
+            # or rounded-away booking (>= 1e-7 in the generated models) is not
+            return a == b or abs(a - b) <= 1e-9 * max(1, abs(a), abs(b))
+        for a in list(self.m.D.values()) + [self.m.maint] + list(self.m.extras):
+            if isinstance(a, (PartFlowController, type(self.m.maint), PeriodicSensor)) and not any(a is b for b in assets):
                 self.bad('C16.net', f'{a.name} (value {a.value}) is not among the system\'s registered assets: the net value '
                          f'leaves it out ({now})')
         total = 0
@@ -866,46 +878,53 @@ class Monitor:
             total += v
             hist = a.value_history
             n0 = self.hist_len.get(id(a), 0)
-            run_ = a._initial_value
+            # the starting value is the one the harness passed to the constructor (0 for everything else)
+            start = self.m.v0.get(id(a), 0 if isinstance(a, (PartFlowController, Maintainer, PeriodicSensor))
+                                  else a._initial_value)
+            run_ = start
             for i, h in enumerate(hist):
                 run_ += h[2]
                 if h[2] == 0:
                     self.bad('C16.zero-entry', f'{a.name}: value history entry {h} records a zero change')
-                if h[3] != run_:
+                if not veq(h[3], run_):
                     self.bad('C16.running-total', f'{a.name}: value history entry {h} has running total {h[3]}, '
                              f'the sum so far is {run_}')
                 if i >= n0 and h[1] != now:
                     self.bad('C16.entry-time', f'{a.name}: value history entry {h} written at {now} is stamped {h[1]}')
             self.hist_len[id(a)] = len(hist)
-            if v != run_:
-                self.bad('C16.value', f'{a.name}: value {v} != starting value {a._initial_value} + changes = {run_} ({now})')
-        if self.sys.get_net_value_of_assets() != total:
+            if not veq(v, run_):
+                self.bad('C16.value', f'{a.name}: value {v} != starting value {start} + changes = {run_} ({now})')
+        if not veq(self.sys.get_net_value_of_assets(), total):
             self.bad('C16.net', f'get_net_value_of_assets()={self.sys.get_net_value_of_assets()} but registered assets '
                      f'are worth {total} ({now})')
         for d in self.devs:
             if isinstance(d, Source):
                 exp = self.src_cost.get(d.name)
-                if d.value != -d.cost_of_produced_parts:
+                if not veq(d.value, -d.cost_of_produced_parts):
                     self.bad('C16.source', f'{d.name}.value={d.value} but cost_of_produced_parts='
                              f'{d.cost_of_produced_parts} ({now})')
-                if exp is not None and self.supplied_seen.get(d.name, 0) == d.produced_parts and d.value != -exp:
+                if exp is not None and self.supplied_seen.get(d.name, 0) == d.produced_parts and not veq(d.value, -exp):
                     self.bad('C16.source', f'{d.name}.value={d.value} but the parts it supplied were worth {exp} when '
                              f'they left it ({now})')
             if isinstance(d, Sink):
                 got = sum(r[3] for r in self.recv_cb.get(d.name, []))
-                if d.value != d.value_of_received_parts or d.value != got:
+                if not veq(d.value, d.value_of_received_parts) or not veq(d.value, got):
                     self.bad('C16.sink', f'{d.name}.value={d.value}, value_of_received_parts={d.value_of_received_parts}, '
                              f'parts were worth {got} at receipt ({now})')
             if isinstance(d, PartHandler):
                 for slot in (d._part, d._output, getattr(d, '_in_progress_batch', None)):
-                    if isinstance(slot, Batch) and slot.value != sum(leaf.value for leaf in leaves(slot)):
+                    if isinstance(slot, Batch) and not veq(slot.value, sum(leaf.value for leaf in leaves(slot))):
                         self.bad('C16.batch', f'batch {slot.name} is worth {slot.value}, its parts '
                                  f'{sum(leaf.value for leaf in leaves(slot))} ({now})')
         mt = self.m.maint
-        exp = mt._initial_value - sum(c for (_, _, _, c) in self.m.wo_started)
-        if mt.value != exp:
+        exp = self.m.v0[id(mt)] - sum(c for (_, _, _, c) in self.m.wo_started)
+        if not veq(mt.value, exp):
             self.bad('C16.maintainer', f'maintainer value {mt.value}; started orders cost '
                      f'{[c for (_, _, _, c) in self.m.wo_started]} ({now})')
+        for x in self.m.extras:
+            if not veq(x.value, self.m.v0[id(x)]):
+                self.bad('C16.value', f'{x.name}: value {x.value}, it was created with {self.m.v0[id(x)]} and nothing '
+                         f'was booked on it ({now})')
 
     # --------------------------------------------------------------------------------------- cycles
     def cycle_check(self, quiescent):
